@@ -53,12 +53,6 @@ def run(ctx):
     ctx.rule("R11", "molecular-frame two-electron integrals are the tensor transform of the local-frame ones (shared with C02-R6)")
     from .c02 import check_integral_rotation
     check_integral_rotation(ctx, "R11")
-    try:
-        check_core_core_form(ctx, "R10")
-    except AnalysisError:
-        # a violation found by an earlier rule is the better diagnosis of the same construct; otherwise the analysis error stands
-        if not ctx.findings:
-            raise
     check_local_frame_integrals(ctx, "R9")
     check_block_reshapes(ctx, "R7")
     check_pipeline_hygiene(ctx, "R8")
@@ -218,6 +212,13 @@ def run(ctx):
     n_sites = _positional_sites(ctx, repo)
     if n_sites < 40:
         raise AnalysisError(f"only {n_sites} long positional call sites checked")
+    try:
+        check_core_core_form(ctx, "R10")
+    except AnalysisError:
+        # a violation found by an earlier rule is the better diagnosis of the same construct; otherwise the analysis error stands
+        if not ctx.findings:
+            raise
+
 
 
 def _raise(t):
